@@ -89,6 +89,25 @@ namespace MEDDLY {
         protected:
             void _compute(node_handle A, oper_item &result);
 
+            /// In an identity-reduced forest, does an edge from level
+            /// 'from' down to level 'to' skip a primed level of size > 1?
+            /// If so, the function is zero off the diagonal there.
+            /// Use from = 0 for the root edge.
+            inline bool skipsIdentity(int from, int to) const
+            {
+                if (!argF->isIdentityReduced()) return false;
+                // position in the level order K, K', K-1, (K-1)', ..., 1, 1', 0
+                const int rfrom = from ? ( from>0 ? 2*from : -2*from-1 )
+                                       : 2*int(argF->getNumVariables())+1;
+                const int rto   = to>0 ? 2*to : ( to<0 ? -2*to-1 : 0 );
+                for (int x=rto+1; x<rfrom; x++) {
+                    if (x % 2) {
+                        if (argF->getLevelSize( -((x+1)/2) ) > 1) return true;
+                    }
+                }
+                return false;
+            }
+
         private:
             ct_entry_type* ct;
 #ifdef TRACE
@@ -127,6 +146,11 @@ void MEDDLY::range_templ<RTYPE>::compute(int L, unsigned in,
     out.indentation(0);
 #endif
     _compute(ap, result);
+    if (skipsIdentity(0, argF->getNodeLevel(ap))) {
+        oper_item zero(RTYPE::getOpndType());
+        RTYPE::initItem(zero, 0);
+        RTYPE::updateItem(result, zero);
+    }
 }
 
 template <class RTYPE>
@@ -154,12 +178,23 @@ void MEDDLY::range_templ<RTYPE>::_compute(node_handle A, oper_item &r)
     //
     // Do computation
     //
-    unpacked_node* Au = unpacked_node::newFromNode(argF, A, SPARSE_ONLY);
+    // Full storage: the zero (transparent) entries of a node are function
+    // values too, and must take part in the maximum / minimum.
+    unpacked_node* Au = unpacked_node::newFromNode(argF, A, FULL_ONLY);
     _compute(Au->down(0), r);
     oper_item tmp(RTYPE::getOpndType());
     for (unsigned i=1; i<Au->getSize(); i++) {
         _compute(Au->down(i), tmp);
         RTYPE::updateItem(r, tmp);
+    }
+    const int Alevel = argF->getNodeLevel(A);
+    for (unsigned i=0; i<Au->getSize(); i++) {
+        if (0 == Au->down(i)) continue;     // zero already included
+        if (skipsIdentity(Alevel, argF->getNodeLevel(Au->down(i)))) {
+            RTYPE::initItem(tmp, 0);
+            RTYPE::updateItem(r, tmp);
+            break;
+        }
     }
 
     //
